@@ -634,5 +634,132 @@ example :
        .origin [97,46,116,101,115,116] .refused502, .origin [97,46,116,101,115,116] .refused502] := by
   decide
 
+/-! ## H. Whom an instance trusts: histories of instance construction in ONE process
+
+  A process builds any number of transports / proxy instances (`NewHTTPTransport`), each with its own
+  `--cacert-file` list, and any of them verifies origins at any time.  CA names in the examples:
+  0 = a system root, 1 = "X", 2 = "Y", 3 = "Z" (in nobody's list). -/
+
+/-- every event of every process history gets what the history-free reading gives it: an instance
+    accepts exactly what its OWN configuration trusts -/
+theorem c07_trust_of_own_configuration (sys : List CA) (evs : List PEvent) :
+    runProc .copied sys (Proc.start sys) evs = specRun sys [] evs := by
+  simpa [Proc.start] using runProc_copied sys sys [] evs
+
+/-- the verdict of a verification by instance `i` at any point `k` of any history is a function of
+    the configuration instance `i` was built with (and of the certificate): `trustOf cfg` -/
+theorem c07_trust_probe_verdict (sys : List CA) (evs : List PEvent) (k i : Nat) (s : CA) (cfg : TrustCfg)
+    (hk : evs[k]? = some (.probe i s)) (hi : (buildsOf (evs.take k))[i]? = some cfg) :
+    (runProc .copied sys (Proc.start sys) evs)[k]? =
+      some (if cfg.insecure || (trustOf sys cfg).contains s then .accept else .refuse) := by
+  rw [c07_trust_of_own_configuration, specRun_getElem sys [] evs k i s hk]
+  simp [specProbe, hi, trustsSigner]
+
+/-- history independence over construction sequences: two verifications of certificates chaining to
+    the same CA, by instances built with the same configuration, in ANY two process histories (other
+    instances with other CA lists built before, in between or afterwards, in any order) end alike -/
+theorem c07_trust_independent_of_other_instances (sys : List CA) (evs₁ evs₂ : List PEvent)
+    (k₁ k₂ i₁ i₂ : Nat) (s : CA) (cfg : TrustCfg)
+    (h₁ : evs₁[k₁]? = some (.probe i₁ s)) (h₂ : evs₂[k₂]? = some (.probe i₂ s))
+    (c₁ : (buildsOf (evs₁.take k₁))[i₁]? = some cfg) (c₂ : (buildsOf (evs₂.take k₂))[i₂]? = some cfg) :
+    (runProc .copied sys (Proc.start sys) evs₁)[k₁]? = (runProc .copied sys (Proc.start sys) evs₂)[k₂]? := by
+  rw [c07_trust_probe_verdict sys evs₁ k₁ i₁ s cfg h₁ c₁, c07_trust_probe_verdict sys evs₂ k₂ i₂ s cfg h₂ c₂]
+
+/-- … in particular against the instance alone in its process -/
+theorem c07_trust_as_if_alone (sys : List CA) (evs : List PEvent) (k i : Nat) (s : CA) (cfg : TrustCfg)
+    (hk : evs[k]? = some (.probe i s)) (hi : (buildsOf (evs.take k))[i]? = some cfg) :
+    (runProc .copied sys (Proc.start sys) evs)[k]? =
+      (runProc .copied sys (Proc.start sys) [.build cfg, .probe 0 s])[1]? :=
+  c07_trust_independent_of_other_instances sys evs [.build cfg, .probe 0 s] k 1 i 0 s cfg hk rfl hi rfl
+
+/-- a CA that is neither a system root nor in the instance's own list is refused (insecure mode
+    off), whoever else in the process was given that CA -/
+theorem c07_trust_foreign_ca_refused (sys : List CA) (evs : List PEvent) (k i : Nat) (s : CA) (cfg : TrustCfg)
+    (hk : evs[k]? = some (.probe i s)) (hi : (buildsOf (evs.take k))[i]? = some cfg)
+    (hins : cfg.insecure = false) (hsys : s ∉ sys) (hown : s ∉ cfg.extra) :
+    (runProc .copied sys (Proc.start sys) evs)[k]? = some .refuse := by
+  rw [c07_trust_probe_verdict sys evs k i s cfg hk hi]
+  have : s ∉ trustOf sys cfg := by
+    unfold trustOf
+    split <;> simp [hsys, hown]
+  simp [hins, this]
+
+/-- the instance's own CAs and the system roots are accepted, whatever else was built -/
+theorem c07_trust_own_ca_accepted (sys : List CA) (evs : List PEvent) (k i : Nat) (s : CA) (cfg : TrustCfg)
+    (hk : evs[k]? = some (.probe i s)) (hi : (buildsOf (evs.take k))[i]? = some cfg)
+    (hs : s ∈ sys ∨ s ∈ cfg.extra) :
+    (runProc .copied sys (Proc.start sys) evs)[k]? = some .accept := by
+  rw [c07_trust_probe_verdict sys evs k i s cfg hk hi]
+  have : s ∈ trustOf sys cfg := by
+    unfold trustOf
+    split
+    · rename_i he
+      rcases hs with hs | hs
+      · exact hs
+      · have : cfg.extra = [] := by simpa using he
+        rw [this] at hs; cases hs
+    · rcases hs with hs | hs <;> simp [hs]
+  simp [this]
+
+/-- the clause: with the chain check of the instance's own trust set as `byCA`, a request read from
+    an intercepted session to an origin whose CA the instance does not trust gets 502 and is not delivered -/
+theorem c07_trust_foreign_ca_502 (sys : List CA) (cfg : TrustCfg) (s : CA) (c : Cert) (a : Bytes) (now : Int)
+    (allowHTTP : Bool) (hsys : s ∉ sys) (hown : s ∉ cfg.extra) :
+    interceptedTo x509ish [] allowHTTP false { c with byCA := trustsSigner sys cfg s } a now = .refused502 ∧
+      (interceptedTo x509ish [] allowHTTP false { c with byCA := trustsSigner sys cfg s } a now).delivered = false := by
+  apply interceptedTo_refused
+  have : trustsSigner sys cfg s = false := by
+    unfold trustsSigner trustOf
+    split <;> simp [hsys, hown]
+  simp [originVerifies, x509ish, this]
+
+/-- WITNESS for the one-pool-per-process variant (`x509.SystemCertPool` cached, every instance
+    appending its `--cacert-file` certificates to the shared pool): an instance built with Y only
+    accepts an origin chaining to X once an instance with X exists — built before it or after it —
+    and the X instance accepts Y; with a pool per instance all of these are refused. -/
+theorem c07_shared_pool_witness :
+    let x : TrustCfg := ⟨[1], false⟩
+    let y : TrustCfg := ⟨[2], false⟩
+    runProc .shared [0] (Proc.start [0]) [.build x, .build y, .probe 1 1, .probe 0 2, .probe 1 3, .probe 1 0] =
+      [.built, .built, .accept, .accept, .refuse, .accept] ∧
+    runProc .copied [0] (Proc.start [0]) [.build x, .build y, .probe 1 1, .probe 0 2, .probe 1 3, .probe 1 0] =
+      [.built, .built, .refuse, .refuse, .refuse, .accept] ∧
+    runProc .shared [0] (Proc.start [0]) [.build y, .probe 0 1, .build x, .probe 0 1] =
+      [.built, .refuse, .built, .accept] ∧
+    runProc .copied [0] (Proc.start [0]) [.build y, .probe 0 1, .build x, .probe 0 1] =
+      [.built, .refuse, .built, .refuse] := by
+  decide
+
+/-- the statement of `c07_trust_of_own_configuration` for the shared variant is FALSE -/
+def c07_shared_pool_full : Prop :=
+  ∀ (sys : List CA) (evs : List PEvent), runProc .shared sys (Proc.start sys) evs = specRun sys [] evs
+
+theorem c07_shared_pool_full_false : ¬ c07_shared_pool_full := by
+  intro h
+  have := h [0] [.build ⟨[1], false⟩, .build ⟨[2], false⟩, .probe 1 1]
+  revert this
+  decide
+
+/-- the witness needs the HISTORY: with a single instance in the process (as in every run of the
+    check before these histories were added) one pool per process changes nothing -/
+theorem c07_shared_pool_needs_another_instance (sys : List CA) (cfg : TrustCfg) (ps : List PEvent)
+    (hp : ∀ e ∈ ps, ∃ i s, e = PEvent.probe i s) :
+    runProc .shared sys (Proc.start sys) (.build cfg :: ps) =
+      runProc .copied sys (Proc.start sys) (.build cfg :: ps) := by
+  simp only [runProc, pStep]
+  rw [runProc_probes_congr .shared .copied sys _ _ (probeOut_single sys cfg) ps hp]
+
+-- non-vacuity: four instances {none, {X}, {Y}, {X,Y}} and an insecure one, probed while and after
+-- the others are built: each accepts its own list and the system root, nothing else
+example :
+    runProc .copied [0] (Proc.start [0])
+        [.build ⟨[], false⟩, .probe 0 0, .probe 0 1, .build ⟨[1], false⟩, .build ⟨[2], false⟩,
+         .probe 0 1, .probe 1 1, .probe 1 2, .probe 2 1, .probe 2 2, .build ⟨[1, 2], false⟩, .build ⟨[], true⟩,
+         .probe 3 1, .probe 3 2, .probe 3 3, .probe 4 3, .probe 2 1, .probe 9 1] =
+      [.built, .accept, .refuse, .built, .built,
+       .refuse, .accept, .refuse, .refuse, .accept, .built, .built,
+       .accept, .accept, .refuse, .accept, .refuse, .noInstance] := by
+  decide
+
 end C07
 end FwdVerif
